@@ -1,1 +1,72 @@
-Require Import RIO.Base.
+(* C01 — rule matching is exact: no missed rule, no spurious rule, no duplicates.
+   Statements only; proofs: RIO.RouterProofs (+ LayerProofs, PathProofs, MatchersProofs, HostProofs, TreeProofs).
+   The regex engine is a parameter with the two laws of C08 as premises; String::to_lowercase is any function. *)
+Require Import RIO.Base RIO.Prefix RIO.Route RIO.Tree RIO.TreeProofs RIO.TreeInst RIO.Matchers RIO.MatcherSpec RIO.PathProofs RIO.RouterSpec RIO.RouterHist RIO.RouterProofs.
+Close Scope N_scope.
+
+(* For every configuration, every set of acceptable routes with unique ids and every request, the routes
+   returned by the router built from that set are exactly (as a multiset: each once) those of the
+   reference linear scan [spec_match]: conjunction of the per-trigger predicates + the any-host policy,
+   scoped per scheme. *)
+Theorem C01_exact : forall lower eng valid ic_host ic_path always,
+  engine_dotstar eng -> engine_prefix_law eng ->
+  forall (rs : list route) (q : request), Forall (ok_route lower) rs -> NoDup (ids rs) ->
+  Permutation (router_match lower eng valid ic_host ic_path always q (rbuild lower eng valid ic_host ic_path always rs))
+              (spec_match lower (eng false) (hmatch eng ic_host) (pmatch eng ic_path) always rs q).
+Proof. exact build_match. Qed.
+
+(* each rule is reported at most once *)
+Theorem C01_once : forall lower eng valid ic_host ic_path always,
+  engine_dotstar eng -> engine_prefix_law eng ->
+  forall (rs : list route) (q : request), Forall (ok_route lower) rs -> NoDup (ids rs) ->
+  NoDup (router_match lower eng valid ic_host ic_path always q (rbuild lower eng valid ic_host ic_path always rs)).
+Proof.
+  intros lower eng valid ih ip al Hd Hp rs q Hok Hn.
+  eapply Permutation_NoDup; [apply Permutation_sym, (build_match lower eng valid ih ip al Hd Hp rs q Hok Hn)|].
+  (* the reference never lists a route twice: its pieces are filters of disjoint parts of a duplicate-free list *)
+  assert (HL : NoDup rs) by (apply NoDup_ids_NoDup; exact Hn).
+  unfold spec_match, match_scope.
+  assert (Hsc : forall (P : route -> bool) (L : list route), NoDup L ->
+            NoDup (let hs := filter (fun r => host_specific r && host_sat (hmatch eng ih) r q && sat_rest lower (eng false) (pmatch eng ip) r q) L in
+                   let anyh := filter (fun r => negb (host_specific r) && sat_rest lower (eng false) (pmatch eng ip) r q) L in
+                   if al || is_nil hs then hs ++ anyh else hs)).
+  { intros _ L HnL. cbv zeta. destruct (al || is_nil _); [|apply NoDup_filter; exact HnL].
+    clear - HnL. induction L as [|r L IH]; cbn; [constructor|]. inversion HnL; subst. specialize (IH H2).
+    destruct (host_specific r) eqn:E; cbn.
+    - destruct (host_sat _ r q && sat_rest _ _ _ r q); cbn; [|exact IH]. constructor; [|exact IH].
+      rewrite in_app_iff, !filter_In. tauto.
+    - destruct (sat_rest _ _ _ r q); cbn; [|exact IH].
+      assert (Hmid : forall (a b : list route) x, NoDup (a ++ b) -> ~ In x (a ++ b) -> NoDup (a ++ x :: b)).
+      { intros a b x Hab Hx. apply NoDup_Add with (a := x) (l := a ++ b); [apply Add_app|]. split; assumption. }
+      apply Hmid; [exact IH|]. rewrite in_app_iff, !filter_In. tauto. }
+  assert (Hdisj : forall x, In x (match_scope lower (eng false) (hmatch eng ih) (pmatch eng ip) al (filter any_scheme rs) q) ->
+                  ~ In x (match q_scheme q with Some s => match_scope lower (eng false) (hmatch eng ih) (pmatch eng ip) al (filter (in_scheme s) rs) q | None => [] end)).
+  { intros x H1 H2. destruct (q_scheme q) as [s|]; [|destruct H2].
+    assert (Hin : forall P L, In x (match_scope lower (eng false) (hmatch eng ih) (pmatch eng ip) al (filter P L) q) -> P x = true).
+    { intros P L H. unfold match_scope in H. destruct (al || _); [apply in_app_iff in H; destruct H as [H|H]|]; apply filter_In in H; destruct H as [H _]; apply filter_In in H; tauto. }
+    apply Hin in H1. apply Hin in H2. unfold any_scheme, in_scheme in *. destruct (rt_scheme x) as [s'|]; [|discriminate].
+    apply andb_prop in H2. destruct H2 as [H2 _]. rewrite H1 in H2. discriminate. }
+  unfold match_scope in Hdisj |- *.
+  assert (Happ : forall a b : list route, NoDup a -> NoDup b -> (forall x, In x a -> ~ In x b) -> NoDup (a ++ b)).
+  { induction a as [|x a IH]; cbn; intros b Ha Hb Hd'; [exact Hb|]. inversion Ha; subst. constructor.
+    - rewrite in_app_iff. intros [H|H]; [contradiction|apply (Hd' x (or_introl eq_refl)); exact H].
+    - apply IH; try assumption. intros y Hy. apply Hd'. right. exact Hy. }
+  apply Happ.
+  - apply (Hsc any_scheme). apply NoDup_filter. exact HL.
+  - destruct (q_scheme q) as [s|]; [apply (Hsc any_scheme); apply NoDup_filter; exact HL|constructor].
+  - exact Hdisj.
+Qed.
+
+(* what "acceptable" means: dynamic path / host regexes have the rule-regex shape and are non-empty;
+   the methods list and the ip list of a route have no duplicate entries *)
+Theorem C01_ok_route : forall lower (r : route),
+  match rt_path r with SDynamic re => shape_c re /\ re <> [] | SStatic _ => True end ->
+  match rt_host r with Some (SDynamic re) => shape_c re /\ re <> [] | _ => True end ->
+  NoDup (match rt_ips r with Some ips => ips | None => [] end) ->
+  NoDup (match rt_methods r with Some ms => ms | None => [] end) ->
+  ok_route lower r.
+Proof. intros lower r H1 H2 H3 H4. apply (ok_route_intro lower (fun _ _ => true) true); assumption. Qed.
+
+Print Assumptions C01_exact.
+Print Assumptions C01_once.
+Print Assumptions C01_ok_route.
